@@ -566,7 +566,9 @@ class _parser:
             # Convert dateobj to utc time to compare with self.now
             try:
                 tz = tz or get_timezone_from_tz_string(self.settings.TIMEZONE)
-                tz_offset = tz.utcoffset(dateobj)
+                # (dateobj may have been made offset-aware above: a tz database
+                # zone only looks up the offset of a naive wall clock)
+                tz_offset = tz.utcoffset(dateobj.replace(tzinfo=None))
             except (pytz.UnknownTimeZoneError, pytz.InvalidTimeError):
                 tz_offset = timedelta(hours=0)
 
